@@ -73,6 +73,15 @@ def facts(read, die, define):
     else:
         die("C09: unrecognised bounds guard in Tree.seek")
     out.append("Definition C09_seek_rejects_nan : bool := %s." % b(c_safe or py_safe))
+    # N4: does the ordering loop of tsk_treeseq_check_windows reject NaN boundaries?
+    cw = _func_body(read("c/tskit/trees.c"), "tsk_treeseq_check_windows", die)
+    if re.search(r"if\s*\(\s*!\s*\(\s*windows\[j\]\s*<\s*windows\[j\s*\+\s*1\]\s*\)\s*\)", cw):
+        w_safe = True
+    elif re.search(r"if\s*\(\s*windows\[j\]\s*>=\s*windows\[j\s*\+\s*1\]\s*\)", cw):
+        w_safe = bool(re.search(r"isnan|isfinite", cw))
+    else:
+        die("C09: unrecognised ordering check in tsk_treeseq_check_windows")
+    out.append("Definition C09_windows_reject_nan : bool := %s." % b(w_safe))
     m = re.search(r"^#define\s+HARTIGAN_MAX_ALLELES\s+(\d+)", read("c/tskit/trees.c"), re.M)
     if not m:
         die("C09: HARTIGAN_MAX_ALLELES")
